@@ -106,7 +106,7 @@ pub fn run(args: &[String]) {
     let dir = tmpdir("connref");
     let sock_addr = format!("unix:{}/s", dir.display());
     let mut server = if modes.iter().any(|m| m == "sock") { Some(Server::start(&sock_addr, threads + 2, threads + 8)) } else { None };
-    let tcp_port = 20000 + (std::process::id() % 20000) as u16;
+    let tcp_port = free_port(false);
     let tcp_addr = format!("tcp:127.0.0.1:{}", tcp_port);
     let mut tcp_server = if modes.iter().any(|m| m == "tcp") { Some(Server::start(&tcp_addr, threads + 2, threads + 8)) } else { None };
 
